@@ -132,7 +132,7 @@ def programs(tier, seed):
     jobs = []
     fams = [("f_plain", 1 if tier == "thorough" else 4), ("f_shape", 1 if tier == "thorough" else 5),
             ("f_occ", 1 if tier == "thorough" else 4), ("f_affine", 1), ("f_cascade", 1),
-            ("f_st", 1 if tier == "thorough" else 2)]
+            ("f_st", 1 if tier == "thorough" else 2), ("f_rand", 1)]
     for fam, step in fams:
         specs = getattr(specgen, fam)(tier, seed)
         for s in specs[seed % step::step]:
